@@ -791,28 +791,151 @@ def shooting_residual(hy, vw, x):
     return hy.solveHydroShock(vw, x, T) / hy.Tnucl - 1.0
 
 
-def root_on_jump(hy, vw, vp, miss):
-    """Class rule of the registered finding CLASS_JUMP, measured on the live object: the v+
-    returned by findMatching sits on a sign change of the code's own shooting function that
-    is a JUMP (the inner 2x2 hybr solve hops between solutions), i.e. brentq legitimately
-    converged but not to a zero: within a relative distance <= 1e-4 of v+ the rebuilt
-    shooting residual takes both signs, and its value at v+ itself equals the observed miss
-    (so the returned matching really is the root finder's answer, not another formula)."""
+def clean_guess(eos, vw, vp):
+    """The initial guess [T+, T-] that the UNCHANGED matchDeflagOrHyb builds for a prescribed
+    v+ (template-model estimate, hydrodynamics.py:414-452 and matchDeflagOrHybInitial),
+    recomputed by the harness from the spec's EOS alone.  Only for alpha_n < 1/3 (the template
+    model then has vMin = 0 and the template branch is taken for every vw); None otherwise."""
+    Tn = eos.Tnucl
+    alN = eos.alN()
+    if not alN < 1.0 / 3:
+        return None
+    cb2, cs2 = float(eos.csqLowT(Tn)), float(eos.csqHighT(Tn))
+    psiN = float(eos.wLowT(Tn)) / float(eos.wHighT(Tn))
+    m_, n_ = 1 + 1 / cs2, 1 + 1 / cb2
+    cb = math.sqrt(cb2)
+    vJ = cb * (1 + math.sqrt(3 * alN * (1 - cb2 + 3 * cb2 * alN))) / (1 + 3 * cb2 * alN)
+    vwT = min(vw, vJ - 1e-6)
+    vpT = min(vp, vwT)
+    vm = min(vwT, cb)
+    al = ((vm - vpT) * (cb2 - vm * vpT)) / (3 * cb2 * vm * (1 - vpT ** 2))
+    sign = np.sign((1 - 3 * alN) * m_ - n_) * np.sign((1 - 3 * al) * m_ - n_)
+    wp = sign * (abs((1 - 3 * alN) * m_ - n_) + 1e-100) / (abs((1 - 3 * al) * m_ - n_) + 1e-100)
+    plain = [min(1.1, 1 / math.sqrt(1 - min(vw ** 2, cb2))) * Tn, Tn]
     try:
-        d0 = shooting_residual(hy, vw, vp)
+        with np.errstate(all="ignore"):
+            Tp = Tn * wp ** (1 / m_)
+            ap = 3 / (m_ * Tn ** m_)
+            am = 3 * psiN / (n_ * Tn ** n_)
+            Tm = float(((ap * vpT * m_ * (1 - vm ** 2) * Tp ** m_) /
+                        (am * vm * n_ * (1 - vpT ** 2))) ** (1 / n_))
+        g = [float(Tp), Tm]
+    except Exception:
+        g = plain
+    if any(isinstance(x, complex) or x != x for x in g):
+        g = plain
+    if g[0] <= g[1]:
+        g[0] = 1.01 * g[1]
+    return g
+
+
+class GuessSpy:
+    """records the initial guess (in temperatures) of every scipy root call made by
+    matchDeflagOrHyb while active"""
+
+    def __init__(self, hy):
+        import WallGo.hydrodynamics as H
+        self.H, self.hy, self.guesses = H, hy, []
+
+    def __enter__(self):
+        self.orig = self.H.root
+
+        def root(f, x0, *a, **k):
+            self.guesses.append([float(t) for t in self.hy._inverseMappingT(x0)])
+            return self.orig(f, x0, *a, **k)
+        self.H.root = root
+        return self
+
+    def __exit__(self, *exc):
+        self.H.root = self.orig
+        return False
+
+
+def root_on_jump(hy, vw, vp, miss, eos):
+    """Class rule of the registered finding CLASS_JUMP, measured on the live object.  The
+    recorded mechanism: the inner 2x2 hybr solve, STARTED FROM THE UNCHANGED CODE'S OWN
+    template guess, hops between solutions as v+ varies, so the shooting function
+    shockTnuclDiff has a jump and brentq converges onto it.  All of:
+      (b) the shooting residual rebuilt from the public methods equals the observed miss at
+          the returned v+ (the returned matching is the root finder's answer);
+      (c) a JUMP at the resolution of the code's root finder: bisection on the sign of the
+          rebuilt residual inside v+(1 +- 1e-4) down to the width 2(rtol v+ + atol) at which
+          brentq stops: across that interval the residual still differs by >= half the miss;
+      (d) at v+ and on both sides of the jump the inner solve was started from the guess the
+          harness recomputes for the unchanged code (clean_guess, to 1e-8): a degraded initial
+          guess is a different mechanism.
+    Returns (is_class, why_not)."""
+    try:
+        with GuessSpy(hy) as spy:
+            d0 = shooting_residual(hy, vw, vp)
+        g0 = spy.guesses[-1] if spy.guesses else None
+    except Exception:
+        return False, "shooting residual not computable at v+"
+    if abs(d0 - miss) > 0.05 * abs(miss) + 1e-9:
+        return False, "returned v+ is not the root finder's answer"
+
+    def f(x):
+        with GuessSpy(hy) as sp2:
+            r = shooting_residual(hy, vw, x)
+        return r, (sp2.guesses[-1] if sp2.guesses else None)
+    try:
+        lo, hi = vp * (1 - 1e-4), vp * (1 + 1e-4)
+        (a, ga), (b, gb) = f(lo), f(hi)
+        if a * b >= 0:
+            # the sign change may sit closer to v+
+            for d in (1e-5, 1e-6, 1e-7):
+                lo, hi = vp * (1 - d), vp * (1 + d)
+                (a, ga), (b, gb) = f(lo), f(hi)
+                if a * b < 0:
+                    break
+            else:
+                return False, "no sign change of the shooting residual next to v+"
+        # down to the resolution of the code's own root finder (brentq stops at 2(xtol+rtol x))
+        width = 2 * (hy.rtol * vp + hy.atol)
+        for _ in range(60):
+            if hi - lo <= width:
+                break
+            mid = 0.5 * (lo + hi)
+            m, gm = f(mid)
+            if m * a > 0:
+                lo, a, ga = mid, m, gm
+            else:
+                hi, b, gb = mid, m, gm
+    except Exception:
+        return False, "shooting residual not computable next to v+"
+    if abs(a - b) < 0.5 * abs(miss):
+        return False, "sign change resolved by the root finder (no jump at its resolution)"
+    for x, g in ((vp, g0), (lo, ga), (hi, gb)):
+        want = clean_guess(eos, vw, x)
+        if want is None or g is None or any(abs(p - q) > 1e-8 * abs(q) for p, q in zip(g, want)):
+            return False, "inner solve not started from the unchanged code's guess (%r vs %r)" % (
+                g, want)
+    return True, ""
+
+
+CLASS_PINNED = "matching-pinned-at-temperature-window"
+_DEFAULT_SOLVERS = {}
+
+
+def pinned_at_window(spec, hy, vw, Tp, Tm):
+    """Class rule of the registered finding CLASS_PINNED (non-default temperature windows
+    only): a returned temperature sits on an end of [TMinHydro, TMaxHydro] (the tan-mapped 2x2
+    solve ran into the boundary) although the matching of a default-window solver for the same
+    EOS and wall velocity reaches Tn with both temperatures strictly inside the narrow window"""
+    lo, hi = hy.TMinHydro, hy.TMaxHydro
+    if not any(abs(T - b) <= 1e-4 * b for T in (Tp, Tm) for b in (lo, hi)):
+        return False
+    key = json.dumps(spec, sort_keys=True)
+    if key not in _DEFAULT_SOLVERS:
+        _DEFAULT_SOLVERS[key] = make_hydro(spec)[1]
+    ref = _DEFAULT_SOLVERS[key]
+    try:
+        vp0, _vm0, Tp0, Tm0 = ref.findMatching(vw)
+        tn, _ = oracle_Tn(OwnEOS(spec), vw, vp0, Tp0)
     except Exception:
         return False
-    if abs(d0 - miss) > 0.05 * abs(miss) + 1e-9:
-        return False
-    for d in (1e-7, 1e-6, 1e-5, 1e-4):
-        try:
-            a, b = shooting_residual(hy, vw, vp * (1 - d)), shooting_residual(hy, vw,
-                                                                            vp * (1 + d))
-        except Exception:
-            continue
-        if a * b < 0 and max(abs(a), abs(b)) >= 0.5 * abs(miss):
-            return True
-    return False
+    return rel(tn, ref.Tnucl) < 1e-4 and lo * 1.02 < Tm0 < hi / 1.02 and \
+        lo * 1.02 < Tp0 < hi / 1.02
 
 
 def check_matching_reaches_Tn(ctx, spec, eos, hy, vw, tag="", edge=False):
@@ -838,6 +961,10 @@ def check_matching_reaches_Tn(ctx, spec, eos, hy, vw, tag="", edge=False):
     at_vJ = vw == hy.vJ
     if at_vJ and tight(hy):
         tolT = TOL_TN_AT_VJ_TIGHT
+    if tag == ":window" and (flagged or vp is None):
+        # narrow-window family: a result the code flags itself is a diagnostic
+        ctx.count("narrow_window_flagged_by_the_code", case)
+        return None
     if edge and (flagged or vp is None):
         ctx.count("edge_above_vMin", case, bucket="flagged by the code:%.0e" % (vw - hy.vMin))
         EDGE_BAD.append(dict(spec=spec, vw=vw, d=vw - hy.vMin, vp=vp, Tp=Tp,
@@ -868,18 +995,38 @@ def check_matching_reaches_Tn(ctx, spec, eos, hy, vw, tag="", edge=False):
     if not tight(hy) and abs(vp * vw - float(eos.csqHighT(Tp))) < FRONT_AT_WALL:
         tolT = max(tolT, TOL_TN_FRONT_AT_WALL)
         ctx.count("near_front_at_wall" + tag)
-        worst("Tn_front_at_wall" + tag, abs(miss), case)
+        wkey = "Tn_front_at_wall" + tag
     else:
-        worst("Tn" + tag + (":at_vJ" if at_vJ else ""), abs(miss), case)
+        wkey = "Tn" + tag + (":at_vJ" if at_vJ else "")
+    if abs(miss) <= tolT:
+        worst(wkey, abs(miss), case)
+    if abs(miss) > tolT and tag == ":window" and pinned_at_window(spec, hy, vw, Tp, Tm):
+        ABSORBED.append(dict(spec=spec, vw=vw, window=(hy.TMaxHydro / Tn, hy.TMinHydro / Tn),
+                             miss=miss, key=CLASS_PINNED))
+        ctx.fail_input(
+            "Hydrodynamics(tmax=%g, tmin=%g): vw=%.6f: the returned matching has T+=%.6g "
+            "T-=%.6g pinned at the end of the temperature window [%.6g, %.6g] and its flow "
+            "reaches T=%.8g ahead of the front, not Tn=%.8g (rel %.2e); with the default "
+            "window the matching lies strictly inside; %s" % (
+                hy.TMaxHydro / Tn, hy.TMinHydro / Tn, vw, Tp, Tm, hy.TMinHydro, hy.TMaxHydro,
+                tn, Tn, abs(miss), spec),
+            dict(kind="Tn", vp=vp, Tp=Tp, tmax=hy.TMaxHydro / Tn, tmin=hy.TMinHydro / Tn,
+                 **case), key=CLASS_PINNED)
+        return vp, vm, Tp, Tm
     if abs(miss) > tolT:
-        known = root_on_jump(hy, vw, vp, miss)
+        known, why_not = root_on_jump(hy, vw, vp, miss, eos)
+        if known:
+            ABSORBED.append(dict(spec=spec, vw=vw, rtol=hy.rtol, miss=miss))
+            ctx.log("attributed to %s: vw=%.7f miss %.2e rtol %g %s" % (
+                CLASS_JUMP, vw, miss, hy.rtol, spec))
         ctx.fail_input(
             "vw=%.7f: integrating from the returned v+=%.8f T+=%.8f to the front and "
             "crossing it gives T=%.10g ahead, not Tn=%.10g (rel %.2e)%s%s%s; %s [rtol %g]" % (
                 vw, vp, Tp, tn, Tn, abs(miss),
                 " [template fallback used]" if fallback else "",
                 " [Hydrodynamics.success is False]" if flagged else "",
-                " [v+ sits on a jump of the code's own shooting function]" if known else "",
+                " [v+ sits on a jump of the code's own shooting function]" if known else
+                " [not the registered jump class: %s]" % why_not,
                 spec, hy.rtol),
             dict(kind="Tn", vp=vp, Tp=Tp, got=tn, **case),
             key=CLASS_JUMP if known else "Tn-not-reached:%s%s" % (
@@ -919,6 +1066,7 @@ def check_matching_reaches_Tn(ctx, spec, eos, hy, vw, tag="", edge=False):
 
 EDGE_BAD = []
 KAPPA_DEFAULT = []
+ABSORBED = []
 
 
 def check_free_shock(ctx, spec, eos, hy, branch):
@@ -1062,17 +1210,54 @@ def check_kappa(ctx, spec, eos, hy, hy_default, vw):
         ctx.fail_input("efficiencyFactor(%.7f): %s; %s" % (vw, bad, spec),
                        dict(kind="kappa", **case), key="kappa-plan")
     if hy_default is not None:
-        try:
-            kd = hy_default.efficiencyFactor(vw)
-            worst("kappa_default_rtol:" + kind, rel(kd, want), dict(case, rtol=hy_default.rtol,
-                                                                   atol=hy_default.atol))
-            ctx.count("kappa_default_rtol", None, bucket="%s:err%s" % (
-                kind, ">1e-2" if rel(kd, want) > 1e-2 else "<=1e-2"))
-            if rel(kd, want) > 1e-2:
-                KAPPA_DEFAULT.append(dict(spec=spec, vw=vw, got=kd, want=want,
-                                          rtol=hy_default.rtol, atol=hy_default.atol))
-        except Exception:
-            pass
+        check_kappa_default(ctx, spec, eos, hy_default, vw, want, kind)
+
+
+CLASS_KAPPA = "kappa-default-tolerance"
+TOL_KAPPA_DEFAULT = 1e-2
+
+
+def check_kappa_default(ctx, spec, eos, hy, vw, want, kind):
+    """the same clause with the DEFAULT solver tolerance.  Registered finding CLASS_KAPPA: the
+    value is Simpson's rule over the few nodes solve_ivp happened to take, off by up to 18 %.
+    Class rule: the returned number IS Simpson's rule, with the oracle's own integrand and
+    prefactor, over the nodes of the code's own solve_ivp solutions (to 1e-9) -- i.e. nothing
+    but the discretisation is wrong; anything else keeps the key kappa:<family>."""
+    from scipy.integrate import simpson as own_simpson
+    case = dict(spec=spec, vw=vw, rtol=hy.rtol, atol=hy.atol)
+    try:
+        with Capture() as cap:
+            kd = hy.efficiencyFactor(vw)
+    except Exception as ex:
+        ctx.fail_input("efficiencyFactor(%r) raised %s inside the window [default tolerance]; %s"
+                       % (vw, repr(ex)[:160], spec), dict(kind="kappa", **case),
+                       key="kappa-raises:" + spec["kind"])
+        return
+    ctx.count("kappa_default_rtol", None, bucket="%s:err%s" % (
+        kind, ">1e-2" if rel(kd, want) > TOL_KAPPA_DEFAULT else "<=1e-2"))
+    if rel(kd, want) <= TOL_KAPPA_DEFAULT:
+        worst("kappa_default_rtol:" + kind, rel(kd, want), case)
+        return
+    pre = 4.0 / (vw ** 3 * eos.alN() * float(eos.wHighT(eos.Tnucl)))
+    rebuilt = 0.0
+    for i in cap.ivps:
+        if getattr(i[0], "__name__", "") != "shockDE" or i[5] != "efficiencyFactor":
+            continue
+        sol, rare = i[4], i[3].get("args") == (False,)
+        w = np.array([float(eos.wLowT(t) if rare else eos.wHighT(t)) for t in sol.y[1]])
+        y = sol.y[0] ** 2 * sol.t ** 2 / (1 - sol.t ** 2) * w
+        rebuilt += (-1 if rare else 1) * pre * float(own_simpson(y=y, x=sol.y[0]))
+    discretisation_only = abs(rebuilt - kd) <= 1e-9 * abs(kd)
+    if discretisation_only:
+        KAPPA_DEFAULT.append(dict(spec=spec, vw=vw, got=kd, want=want, rtol=hy.rtol))
+    ctx.fail_input("efficiencyFactor(%.7f) = %.8g with the default solver tolerance but the "
+                   "kinetic-energy integral of its flow profile is %.8g (rel %.2e)%s; %s" % (
+                       vw, kd, want, rel(kd, want),
+                       " [= Simpson over the %d+ nodes solve_ivp took: discretisation only]" %
+                       min(len(i[4].t) for i in cap.ivps if i[5] == "efficiencyFactor")
+                       if discretisation_only else "", spec),
+                   dict(kind="kappa", got=kd, want=want, **case),
+                   key=CLASS_KAPPA if discretisation_only else "kappa:" + spec["kind"])
 
 
 def kappa_points(ctx, eos, hy, grid, full):
@@ -1091,7 +1276,75 @@ def kappa_points(ctx, eos, hy, grid, full):
     return sorted(set(v for v in pts if lo <= v <= 0.99 and abs(v - vJ) >= 1e-5))
 
 
+def config_families(ctx, specs):
+    import WallGo
+    cfg = WallGo.Config().configHydrodynamics
+    want = (cfg.tmax, cfg.tmin, cfg.relativeTol, cfg.absoluteTol)
+    picks, seen = [], set()
+    for sp in specs:
+        if sp["kind"] not in seen or (len(picks) < ctx.n(4, 12) and ctx.rng.random() < 0.2):
+            picks.append(sp)
+            seen.add(sp["kind"])
+    for spec in picks:
+        th = make_eos(spec)
+        m = WallGo.WallGoManager()
+        m._initHydrodynamics(th)
+        hy = m.hydrodynamics
+        got = (float(hy.TMaxHydro / hy.Tnucl), float(hy.TMinHydro / hy.Tnucl), hy.rtol, hy.atol)
+        case = dict(spec=spec, path="WallGoManager._initHydrodynamics")
+        ctx.count("through_manager", case, bucket=spec["kind"])
+        if any(abs(a - b) > 1e-12 * abs(b) for a, b in zip(got, (10.0, 0.01, 1e-6, 1e-10))) or \
+                any(abs(a - b) > 1e-12 * abs(b) for a, b in zip(got, want)):
+            ctx.fail_input("the manager built Hydrodynamics with (tmax, tmin, rtol, atol) = %r; "
+                           "configHydrodynamics says %r, the sampled configuration is (10, 0.01, "
+                           "1e-6, 1e-10); %s" % (got, want, spec), dict(kind="manager", **case),
+                           key="manager-config")
+        if not gate_lo(hy) < hy.vJ - 2e-2:
+            continue
+        eos = OwnEOS(spec)
+        lo, vJ = gate_lo(hy), hy.vJ
+        for vw in (lo, 0.01, 0.05, 0.2, 0.4, 0.5 * (lo + vJ), vJ - 5e-2, vJ - 1e-3):
+            if lo <= vw < vJ:
+                check_matching_reaches_Tn(ctx, spec, eos, hy, vw, tag=":manager")
+    for k, spec in enumerate(picks):
+        for tmax, tmin in ((2.0, 0.5), (3.0, 0.3), (1.5, 0.8))[k % 3:][:ctx.n(1, 3)]:
+            try:
+                _th, hy = make_hydro(spec, tmax=tmax, tmin=tmin)
+            except Exception as ex:
+                ctx.fail_input("Hydrodynamics(tmax=%g, tmin=%g) raised %s; %s" % (
+                    tmax, tmin, repr(ex)[:120], spec), dict(kind="raise", spec=spec, tmax=tmax,
+                                                            tmin=tmin),
+                    key="raises-window:" + spec["kind"])
+                continue
+            if not gate_lo(hy) < hy.vJ - 2e-2:
+                continue
+            eos = OwnEOS(spec)
+            lo, vJ = gate_lo(hy), hy.vJ
+            ctx.count("narrow_window", dict(spec=spec, tmax=tmax, tmin=tmin))
+            if lo != GATE_SLOW:
+                lo += 1e-1       # the unconverged sliver above a root-found vMin is wider here
+            for vw in (lo, 0.01, 0.05, 0.2, 0.4, 0.55, vJ - 5e-2, vJ - 1e-3):
+                if lo <= vw < vJ:
+                    check_matching_reaches_Tn(ctx, spec, eos, hy, vw, tag=":window")
+
+
+# recorded inputs of CLASS_PINNED: (spec, tmax, tmin, vw)
+KNOWN_WINDOW_INPUTS = [
+    (dict(kind="bag", psi=0.8, Tn=0.8), 2.0, 0.5, 0.4),
+    (dict(kind="template", psiN=0.9, alN=0.1, cs2=0.32, cb2=0.29, Tn=100.0), 2.0, 0.5, 0.2),
+]
+
+
 def replay_known(ctx):
+    for spec, tmax, tmin, vw in KNOWN_WINDOW_INPUTS:
+        try:
+            _th, hy = make_hydro(spec, tmax=tmax, tmin=tmin)
+            check_matching_reaches_Tn(ctx, spec, OwnEOS(spec), hy, vw, tag=":window")
+            ctx.count("known_input_replayed", dict(spec=spec, vw=vw, tmax=tmax, tmin=tmin))
+        except Exception as ex:
+            ctx.fail_input("replay of a recorded input raised %r; %s vw=%r" % (ex, spec, vw),
+                           dict(kind="raise", spec=spec, vw=vw, tmax=tmax, tmin=tmin),
+                           key="raises:" + spec["kind"])
     for spec, vw, rtol, atol in KNOWN_INPUTS:
         try:
             _th, hy = make_hydro(spec, rtol, atol)
@@ -1108,6 +1361,7 @@ def direct(ctx):
     WORST.clear()
     del EDGE_BAD[:]
     del KAPPA_DEFAULT[:]
+    del ABSORBED[:]
     replay_known(ctx)
     specs = eos_specs(ctx)
     rng = ctx.rng
@@ -1147,8 +1401,12 @@ def direct(ctx):
         seen_kind.add(spec["kind"])
         for vw in kappa_points(ctx, eos, hyk, grid, full):
             check_kappa(ctx, spec, eos, hyk, hy if not full else None, vw)
+    # other call path and other configurations: the EOS through the manager (config defaults),
+    # and narrower temperature windows
+    config_families(ctx, specs)
     # tight solver tolerances: the same statement at 1e-9, nowhere loosened
-    for spec in specs[:ctx.n(8, 60)]:
+    stride = max(1, len(specs) // ctx.n(9, 60))
+    for spec in specs[::stride]:
         try:
             th, hy = make_hydro(spec, rtol=1e-9, atol=1e-12)
         except Exception:
@@ -1170,22 +1428,8 @@ def direct(ctx):
                 "code itself (success False / None) -- diagnostics, listed in the evidence" %
                 len(EDGE_BAD))
         ctx.cov["edge_above_vMin_flagged"] = EDGE_BAD[:12]
-    if KAPPA_DEFAULT:
-        worst_k = max(KAPPA_DEFAULT, key=lambda d: rel(d["got"], d["want"]))
-        msg = ("efficiencyFactor with the DEFAULT solver tolerance (rtol 1e-6) is off by more "
-               "than 1%% from the kinetic-energy integral of its own flow profile in %d "
-               "sampled cases (worst: vw=%.6f got %.6g want %.6g, %s); it converges to the "
-               "integral as rtol -> 0 (Simpson over the sparse solve_ivp nodes)" % (
-                   len(KAPPA_DEFAULT), worst_k["vw"], worst_k["got"], worst_k["want"],
-                   worst_k["spec"]))
-        ctx.cov["kappa_default_tolerance"] = KAPPA_DEFAULT[:12]
-        listed = any(k.get("property") == ctx.pid and k.get("key") == "kappa-default-tolerance"
-                     for k in ctx.known.get("findings", []))
-        if listed:
-            ctx.fail_input(msg, dict(kind="kappa", **{k: worst_k[k] for k in (
-                "spec", "vw", "got", "want", "rtol", "atol")}), key="kappa-default-tolerance")
-        else:
-            ctx.log("CANDIDATE FINDING (not gated): " + msg)
+    ctx.cov["kappa_default_tolerance"] = KAPPA_DEFAULT[:12]
+    ctx.cov["absorbed_by_%s" % CLASS_JUMP] = ABSORBED[:40]
 
 
 def _private_build(ctx):
@@ -1224,6 +1468,15 @@ def _run(ctx):
     gen_ok = True
     try:
         text, info = gen_hydro_shock.generate_c03(*srcs)
+        mfacts, defaults = gen_hydro_shock.manager_hydro_facts(vlib.read_src("manager.py"),
+                                                               vlib.read_src("config.py"))
+        if [float(defaults[k]) for k in ("tmax", "tmin", "relativeTol", "absoluteTol")] != \
+                [10.0, 0.01, 1e-6, 1e-10]:
+            raise pyrx.TranslateError(
+                "ConfigHydrodynamics defaults %r are not the configuration the harness samples "
+                "(10, 0.01, 1e-6, 1e-10)" % defaults)
+        info["facts"].append("WallGoManager._initHydrodynamics: " + mfacts["call"] +
+                             "; defaults " + json.dumps(mfacts["defaults"]))
         ctx.write("HydroShock.v", text, sources=dict(
             files=["src/WallGo/hydrodynamics.py", "src/WallGo/hydrodynamicsTemplateModel.py",
                    "src/WallGo/helpers.py"], sha=[vlib.sha(s) for s in srcs],
